@@ -335,8 +335,11 @@ class GWCSAPIMixin(BaseHighLevelWCS, BaseLowLevelWCS):
         Convert world coordinates (represented by Astropy objects) to array
         indices.
         """
-        result = self.invert(*world_objects, with_units=True)[::-1]
-        return tuple([utils._toindex(r) for r in result])
+        result = self.invert(*world_objects, with_units=True)
+        if self.pixel_n_dim == 1:
+            # a single pixel axis: ``invert`` returns a bare value, not a tuple
+            return utils._toindex(result)
+        return tuple([utils._toindex(r) for r in result[::-1]])
 
     @property
     def pixel_axis_names(self):
